@@ -373,4 +373,103 @@ theorem decodeSextets_bits : ∀ ss : List Nat, (∀ s ∈ ss, s < 64) →
     exact this.symm
 
 
+/-- the sextets of a byte string (what `b2a` writes before the alphabet and the pads) -/
+def sextets : List Nat → List Nat
+  | [] => []
+  | [a] => [a / 4, a % 4 * 16]
+  | [a, b] => [a / 4, a % 4 * 16 + b / 16, b % 16 * 4]
+  | a :: b :: c :: rest => a / 4 :: (a % 4 * 16 + b / 16) :: (b % 16 * 4 + c / 64) :: c % 64 :: sextets rest
+
+/-- canonical sextet strings: no lone sextet at the end, unused low bits zero -/
+def CanonS : List Nat → Prop
+  | [] => True
+  | [_] => False
+  | [_, s1] => s1 % 16 = 0
+  | [_, _, s2] => s2 % 4 = 0
+  | _ :: _ :: _ :: _ :: rest => CanonS rest
+
+/-- **encode ∘ decode = id on canonical sextet strings** -/
+theorem sextets_decodeSextets : ∀ ss : List Nat, (∀ s ∈ ss, s < 64) → CanonS ss →
+    sextets (decodeSextets ss) = ss
+  | [], _, _ => rfl
+  | [_], _, h => absurd h (by simp [CanonS])
+  | [s0, s1], h, hc => by
+    have h0 : s0 < 64 := h s0 (by simp)
+    have h1 : s1 < 64 := h s1 (by simp)
+    simp only [CanonS] at hc
+    simp only [decodeSextets, sextets]
+    congr 1
+    · omega
+    congr 1
+    omega
+  | [s0, s1, s2], h, hc => by
+    have h0 : s0 < 64 := h s0 (by simp)
+    have h1 : s1 < 64 := h s1 (by simp)
+    have h2 : s2 < 64 := h s2 (by simp)
+    simp only [CanonS] at hc
+    simp only [decodeSextets, sextets]
+    congr 1
+    · omega
+    congr 1
+    · omega
+    congr 1
+    omega
+  | s0 :: s1 :: s2 :: s3 :: rest, h, hc => by
+    have h0 : s0 < 64 := h s0 (by simp)
+    have h1 : s1 < 64 := h s1 (by simp)
+    have h2 : s2 < 64 := h s2 (by simp)
+    have h3 : s3 < 64 := h s3 (by simp)
+    simp only [CanonS] at hc
+    have ih := sextets_decodeSextets rest (fun s hs => h s (by simp [hs])) hc
+    simp only [decodeSextets, sextets, ih]
+    congr 1
+    · omega
+    congr 1
+    · omega
+    congr 1
+    · omega
+    congr 1
+    omega
+
+/-- … and decode ∘ encode = id at the sextet level (bytes < 256) -/
+theorem decodeSextets_sextets (bs : List Nat) (h : ∀ b ∈ bs, b < 256) : decodeSextets (sextets bs) = bs := by
+  induction bs using sextets.induct with
+  | case1 => rfl
+  | case2 a =>
+    have := h a (by simp)
+    simp only [sextets, decodeSextets]; congr 1; omega
+  | case3 a b =>
+    have := h a (by simp); have := h b (by simp)
+    simp only [sextets, decodeSextets]; congr 1; · omega
+    congr 1; omega
+  | case4 a b c rest ih =>
+    have := h a (by simp); have := h b (by simp); have := h c (by simp)
+    simp only [sextets, decodeSextets, ih (fun x hx => h x (by simp [hx]))]
+    congr 1; · omega
+    congr 1; · omega
+    congr 1; omega
+
+/-- the sextets of a byte string are canonical: the two functions are mutually inverse bijections between byte
+    strings and canonical sextet strings -/
+theorem canonS_sextets (bs : List Nat) : CanonS (sextets bs) := by
+  induction bs using sextets.induct with
+  | case1 => trivial
+  | case2 a => simp only [sextets, CanonS]; omega
+  | case3 a b => simp only [sextets, CanonS]; omega
+  | case4 a b c rest ih => simpa only [sextets, CanonS] using ih
+
+
+/-- `b2a` writes the sextets through the alphabet and pads to a multiple of four -/
+theorem b2a_eq_sextets (bs : List Nat) :
+    b2a bs = (sextets bs).map enc6 ++ List.replicate ((3 - bs.length % 3) % 3) PAD := by
+  induction bs using b2a.induct with
+  | case1 => rfl
+  | case2 a => rfl
+  | case3 a b => rfl
+  | case4 a b c rest ih =>
+    have hl : (3 - (rest.length + 3) % 3) % 3 = (3 - rest.length % 3) % 3 := by omega
+    simp only [b2a, sextets, List.map_cons, List.cons_append, List.length_cons, ih]
+    rw [show rest.length + 1 + 1 + 1 = rest.length + 3 from rfl, hl]
+
+
 end Adaptix.Codec.Base64
